@@ -478,6 +478,21 @@ func (g *mgen) valFor(kind string) int {
 			return pick(g.rng, []int{1<<63 - 1, 1 << 32, 1<<32 - 1})
 		}
 	}
+	// zero and negative values are values too ("no limit", "the default"): setting them is setting
+	switch kind {
+	case "pids", "cpu.quota", "mem.swap":
+		if g.rng.Intn(8) == 0 {
+			return pick(g.rng, []int{0, -1})
+		}
+	case "oom":
+		if g.rng.Intn(6) == 0 {
+			return pick(g.rng, []int{0, 0, -1000, 1000})
+		}
+	case "cpu.shares", "mem.swappiness":
+		if g.rng.Intn(12) == 0 {
+			return 0
+		}
+	}
 	return v
 }
 
